@@ -378,9 +378,9 @@ def check_C13(res, tier, seed):
     paddrv = vlib.build_ocaml('paddrv', 'pad_model', 'paddrv.ml')
     stats, distinct, samples = run_kcrypto(c, res, 'C13', 'seq_c13', 240 if tier == 'quick' else 6000, seed, extra=(paddrv,), stream='K-pad')
     res.coverage.update({'evaluations': stats['calls'], 'distinct_nontrivial': distinct,
-                         'rule': 'per sequence 5-9 cases: C_WrapKey with AES_KEY_WRAP / AES_KEY_WRAP_PAD / AES_CBC_PAD (wrapping keys 16/24/32 bytes, wrapped lengths 1..72) compared byte-for-byte with RFC 3394/5649 / PKCS#7-CBC references, unwrap of library and reference blobs (value, type, LOCAL/NEVER_EXTRACTABLE/ALWAYS_SENSITIVE, check value), truncated / flipped / empty / extended blobs; RSA PKCS#1 v1.5 and OAEP wrapping; CONCATENATE_* and AES_{ECB,CBC}_ENCRYPT_DATA derivation with requested type/length; the extracted Coq padding/cutting model evaluated on the same inputs',
+                         'rule': 'per sequence 5-9 cases: C_WrapKey with AES_KEY_WRAP / AES_KEY_WRAP_PAD / AES_CBC_PAD (wrapping keys 16/24/32 bytes, wrapped lengths 1..72) compared byte-for-byte with RFC 3394/5649 / PKCS#7-CBC references, unwrap of library and reference blobs (value, type, LOCAL/NEVER_EXTRACTABLE/ALWAYS_SENSITIVE, check value), truncated / flipped / empty / extended blobs; RSA PKCS#1 v1.5 and OAEP wrapping; CONCATENATE_* and AES_{ECB,CBC}_ENCRYPT_DATA derivation with requested type/length; CKM_DH_PKCS_DERIVE against integer arithmetic; CKM_ECDH1_DERIVE on P-256 against an integer-arithmetic reference (validated once against the openssl CLI) for GENERIC / AES / DES2 / DES3 targets with absent, zero, fitting and unfitting CKA_VALUE_LEN, decided by the extracted derive_len_lax / agree_value; the extracted Coq padding/cutting model evaluated on the same inputs',
                          'samples': samples, 'k_crypto': stats, 'traces_validated_against_impl': stats['sequences'],
-                         'not_covered': 'PKCS#8 content of wrapped private keys; DES key derivation (single DES needs the OpenSSL legacy provider); DH/ECDH shared secrets'})
+                         'not_covered': 'PKCS#8 content of wrapped private keys; DES key derivation (single DES needs the OpenSSL legacy provider); ECDH on curves other than P-256, X25519 / X448'})
     finish_proof_side(c, res, 'C13')
 
 
